@@ -31,6 +31,7 @@ CHECKS = {
 }
 NA = {
 }
+BOUNDED_NOTE = ' The bounded part is the run-time form of the same contracts on enumerated/seeded inputs; it is reported under coverage.bounded_* and never counted in obligations/discharged.'
 ALG_NOTE = ('Trusted: CPython/NumPy index machinery on object arrays, "floats are reals" (rounding/overflow ignored; float constants read as the rationals or square roots of rationals they denote), sympy normalisation, the spec functions. '
             'numpy branch only: torch branches and anything behind LAPACK are bounded run-time contracts, reported separately and never counted as discharged.')
 CHECKS.update({
@@ -62,6 +63,33 @@ CHECKS.update({
         'Dicke basis == normalised sums of distinct permutations (exact), orthonormal, invariant under every adjacent transposition, klist = all compositions, count = binomial; partial_trace_ABk_to_AB == embed with the Dicke basis and trace k-1 copies for symbolic psi, (dimA,dimB,k) with dimA*dimB^k <= 64.',
    note=ALG_NOTE,
    tech=TECH + 'larger sizes and the torch branch as bounded run-time contracts'),
+})
+CHECKS.update({
+ 'C04': dict(level='other', ref='DESIGN.md §7 C04',
+   text='Proved: the numpy adjoint kernels the reverse sweep is built from (apply_gate_grad, apply_control_n_gate_grad, inner_product_grad) against the DERIVATIVE of the real forward function, obtained by symbolic differentiation of what the forward computes on symbolic inputs '
+        '(PyTorch complex-gradient convention), n<=3, every target/control configuration. Bounded: the torch.autograd.Function bodies (circuit reverse sweep with shared / placeholder parameters, Knill-Laflamme inner product, PSD sqrtm, Pade logm, hf_model_wrapper) vs finite differences / autograd.',
+   note=ALG_NOTE + ' torch tensors cannot be executed symbolically: everything inside torch.autograd.Function is bounded.' + BOUNDED_NOTE,
+   tech=TECH + 'symbolic differentiation of the forward map as the specification; finite-difference run-time contracts as bounded stand-in'),
+ 'C10': dict(level='other', ref='DESIGN.md §7 C10',
+   text='Proved: reproducibility as a static effect system over the AST of the real functions (every seed-accepting API in scope): one obligation per call site / global-generator access - callee seed parameters (resolved with inspect.signature on the imported objects) receive a value derived from the seed, '
+        'no derived generator is bound to a non-seed parameter, no global numpy/python/torch generator is touched. Static failures are reported only after a dynamic replay confirms them. Bounded: membership of every generator output in the advertised set over its option lattice, and a dynamic same-seed echo with perturbed global generators.',
+   note='Trusted: the effect rules of vf/effects.py, determinism of numpy.random.Generator/random.Random/scipy given their state, Python name binding. Validity of the generated objects needs floating-point linear algebra and is bounded.' + BOUNDED_NOTE,
+   tech='contract-based deductive verification: effect contracts (Det(seed)) checked per call site over the AST of the real source with signature resolution on the imported objects; dynamic replay of failures; run-time validity contracts as bounded stand-in'),
+ 'C15': dict(level='other', ref='DESIGN.md §7 C15',
+   text='Proved (exact polynomial / trigonometric-polynomial identities on the real code): su2_to_so3 is a homomorphism with R R^T = |U|^4 I, det = |U|^6, R(-U)=R(U); angle_to_su2 in SU(2); angle_to_so3 orthogonal with det 1 and equal to su2_to_so3 o angle_to_su2; get_su2_irrep built from angles is unitary for j2<=3 (5 thorough) and equals angle_to_su2 for j2=1. '
+        'Bounded: angle extraction round trips on the quantifier grid including beta in {0,pi} exactly and mixed batches, D(U1U2)=D(U1)D(U2) on matrix input, su(2) commutators, Clebsch-Gordan orthogonality/intertwining.',
+   note=ALG_NOTE + ' arccos/arctan branch logic with thresholds is outside deduction: bounded.' + BOUNDED_NOTE,
+   tech=TECH + 'trigonometric normal form (half-angle base pairs, c^2+s^2=1); run-time contracts on the Euler-angle grid as bounded stand-in'),
+ 'C18': dict(level='other', ref='DESIGN.md §7 C18',
+   text='Proved (identities in the SYMBOLIC parameter over its documented range): Werner / Isotropic equal their textbook formulas, unit trace, Hermitian (d=2..4); Horodecki 2x4 / 3x3 unit trace and symmetric; W-type normalised with amplitudes proportional to the coefficients; fixed kets (W, GHZ, Bell, maximally entangled / coherent) exactly normalised; '
+        'return_dm returns exactly the projector of the ket; maximally_mixed_state has unit trace. Bounded (grids with end points): PSD / PPT / ranks, all load_upb kinds (orthonormal product vectors, PPT complement of rank D-|UPB|), POVMs and Chebyshev bases, closed-form REE/EOF/GME.',
+   note=ALG_NOTE + ' Positivity/PPT/rank need eigenvalues: bounded.' + BOUNDED_NOTE,
+   tech=TECH + 'range-typed parameter symbols for the documented preconditions; run-time contracts on parameter grids as bounded stand-in'),
+ 'C19': dict(level='exploration', ref='DESIGN.md §7 C19',
+   text='The shipped codes are fixed numeric objects: the property is decided by complete enumeration of its own finite quantifier (exhaustive: true) - every shipped code x every Pauli error of weight < d (Knill-Laflamme), orthonormal code words, every listed stabilizer string (circuit unitary == dense string, fixes every code word), '
+        'error-set generators == brute-force enumeration for n<=6, d<=4, weight-enumerator sum rules. parse_simple_pauli is decided by exact evaluation on all strings of length <= 4 in both syntaxes (4 closed obligations).',
+   note='No value-symbolic contract exists for fixed numeric code words; contract-based deduction contributes only the parse_simple_pauli obligations (finite domain, exact evaluation). Everything else is labelled bounded/exhaustive. Trusted: NumPy float64 with tolerance 1e-9 and the independent oracles in contracts/c19.py.',
+   tech='exhaustive run-time evaluation of the contracts over the finite quantifier (bounded stand-in, exhaustive) + exact evaluation of the parse_simple_pauli contract on its finite domain'),
 })
 PENDING = 'contracts for this property are not built yet in this revision (work in progress, see DESIGN.md §7/§10)'
 ALL = [f'C{i:02d}' for i in range(1, 21)]
